@@ -1,6 +1,22 @@
 import DicomModel.Model.Ops
 /-
 C13 — attribute operations follow their documented semantics.
+
+`apply` is the code model of `InMemDicomObject::apply` (navigation, creation of sequences and items,
+`apply_leaf` with its remove-then-reinsert pattern); `applySpec` the reference semantics written from the
+documentation of `AttributeAction` over the map interface `get` / `set` / `erase`.
+* map laws of the sorted attribute map (`get_set_same`, `get_set_other`, `set_set`, `set_erase`, …)
+* `apply_refines_spec`   — all actions, selectors of any depth: `apply = applySpec` on well-formed objects
+* `apply_wf`, `reachable_writable` — well-formedness (ascending tags, sequences under VR SQ, pixel
+  sequences under OB, recursively) is invariant under every operation, hence under every history
+* `frame`, `frame_items` — attributes (and sibling items) off the selector path are untouched
+* `nonconstructive_missing_fails_clean`, `nonconstructive_missing_fails` — a non-constructive action on
+  a missing path fails and changes nothing
+* `constructive_creates`, `constructive_appends_item`, `constructive_creates_leaf`,
+  `push_creates_or_fails_clean` — constructive actions create the missing sequence, the next item,
+  the attribute
+That a well-formed object of type-suitable values is written and read back equal in every writable
+transfer syntax is C01's theorem; here it is executed on every final object by the correspondence run.
 -/
 namespace Dicom.Ops
 set_option linter.unusedSimpArgs false
@@ -141,19 +157,23 @@ theorem leaf_refines (dict : Nat → Option VR) (o : Obj) (hw : o.wf = true) (ta
     applyLeaf dict o tag a =
       (o.put? tag (leafSpec dict tag (o.get tag) a).1, (leafSpec dict tag (o.get tag) a).2) := by
   have hse := fun vr v => set_erase o tag vr v 0 hw
-  have push : ∀ (ext : Prim → Option Prim) (fresh : Prim) (fb : VR),
-      pushImpl dict o tag ext fresh fb =
-        (o.put? tag (pushSpec dict tag (o.get tag) ext fresh fb).1,
-         (pushSpec dict tag (o.get tag) ext fresh fb).2) := by
-    intro ext fresh fb
+  have push : ∀ (ext mk : Prim → Option Prim) (fb : VR),
+      pushImpl dict o tag ext mk fb =
+        (o.put? tag (pushSpec dict tag (o.get tag) ext mk fb).1,
+         (pushSpec dict tag (o.get tag) ext mk fb).2) := by
+    intro ext mk fb
     unfold pushImpl pushSpec
     cases hg : o.get tag with
-    | none => simp [Obj.put?]
+    | none =>
+      simp only
+      split
+      · simp [Obj.put?, erase_of_get_none o tag hg]
+      · split <;> simp [Obj.put?, erase_of_get_none o tag hg]
     | some c =>
       obtain ⟨vr, v⟩ := c
       cases v with
       | prim p =>
-        cases he : ext p with
+        cases he : ext (normEmpty vr p) with
         | some p' => simp [Obj.put?, he, hse]
         | none => simp [Obj.put?, he, hse, set_get_self o tag vr _ hg]
       | seq items => simp [Obj.put?, hse, set_get_self o tag vr _ hg]
@@ -319,11 +339,17 @@ theorem good_setVr (nvr vr : VR) (v : Val) (h : Good vr v) : Good (setVrOf nvr v
 theorem leafSpec_good (dict : Nat → Option VR) (tag : Nat) (cur : Option (VR × Val))
     (hc : ∀ vr v, cur = some (vr, v) → Good vr v) (a : Action) :
     ∀ vr v, (leafSpec dict tag cur a).1 = some (vr, v) → Good vr v := by
-  have hpush : ∀ ext fresh fb vr v, (pushSpec dict tag cur ext fresh fb).1 = some (vr, v) → Good vr v := by
-    intro ext fresh fb vr v h
+  have hpush : ∀ ext mk fb vr v, (pushSpec dict tag cur ext mk fb).1 = some (vr, v) → Good vr v := by
+    intro ext mk fb vr v h
     unfold pushSpec at h
     cases cur with
-    | none => simp at h; rw [← h.2]; exact good_prim _ _
+    | none =>
+      simp only at h
+      split at h
+      · simp at h
+      · split at h
+        · simp at h; rw [← h.2]; exact good_prim _ _
+        · simp at h
     | some c =>
       obtain ⟨vr0, v0⟩ := c
       cases v0 with
@@ -603,11 +629,32 @@ theorem nonconstructive_missing_fails (dict : Nat → Option VR) (a : Action)
 
 /-! ### constructive actions create what is missing -/
 
-/-- at the leaf a constructive action creates the attribute and succeeds -/
+/-- is the action one of the `Push*` actions -/
+def Action.isPush : Action → Bool
+  | .pushStr _ | .pushNum _ => true
+  | _ => false
+
+/-- at the leaf a constructive `Set*` action creates the attribute and succeeds -/
 theorem constructive_creates_leaf (dict : Nat → Option VR) (o : Obj) (tag : Nat) (a : Action)
-    (ha : a.constructive = true) (hg : o.get tag = none) :
+    (ha : a.constructive = true) (hp : a.isPush = false) (hg : o.get tag = none) :
     (apply dict o [] tag a).2 = none ∧ ((apply dict o [] tag a).1.get tag).isSome = true := by
-  cases a <;> simp_all [apply, applyLeaf, Action.constructive, changeValue, pushImpl, get_set_same]
+  cases a <;> simp_all [apply, applyLeaf, Action.constructive, Action.isPush, changeValue, get_set_same]
+
+/-- a `Push*` action on a missing attribute creates it with a value of the kind of its VR, or — when
+the pushed value has no form in that kind (text into a number, anything into a sequence) — fails and
+creates nothing -/
+theorem push_creates_or_fails_clean (dict : Nat → Option VR) (o : Obj) (hw : o.wf = true) (tag : Nat)
+    (a : Action) (hp : a.isPush = true) (hg : o.get tag = none) :
+    ((apply dict o [] tag a).2 = none ∧ ((apply dict o [] tag a).1.get tag).isSome = true) ∨
+    ((apply dict o [] tag a).2 ≠ none ∧ (apply dict o [] tag a).1 = o) := by
+  cases a <;> simp_all [Action.isPush]
+  all_goals
+    simp only [apply, applyLeaf, pushImpl, hg]
+    split
+    · exact Or.inr ⟨by simp, rfl⟩
+    · split
+      · exact Or.inl ⟨rfl, by simp [get_set_same]⟩
+      · exact Or.inr ⟨by simp, rfl⟩
 
 /-- a missing sequence is created (VR from the dictionary, which must allow a sequence) together
 with its first item, in which the rest of the operation takes place; it is held under VR SQ -/
